@@ -1,3 +1,4 @@
+import XcmModel.Lemmas.Btls
 import XcmModel.Lemmas.Xpoll
 import XcmModel.Btcp
 import XcmModel.Ux
@@ -163,3 +164,44 @@ example :
   exact Reach.bellMod 1 false h3 (by decide)
 
 end XcmModel.C16
+
+/-! ## btls: `conn_update` of xcm_tp_btls.c does not ring without a reason -/
+namespace XcmModel.C16btls
+open XcmModel XcmModel.Btls
+
+/-- awaited condition 0 on a ready connection: no bell, nothing asked of the TCP socket below -/
+theorem C16_btls_idle_silent (s : St) (hs : s.state = .ready) (hp : Bool) :
+    connUpdate s 0 hp = (false, 0, true, false) := by
+  unfold connUpdate; simp [hs]
+
+/-- RECEIVABLE awaited after xcm_receive has reported EAGAIN (OpenSSL wanted to read) and nothing is pending:
+no bell; the TCP socket below is watched for input only -/
+theorem C16_btls_quiet_after_eagain (s : St) (cap : Nat) (h : HAns)
+    (hs : (tryFinishHandshake s h).state = .ready) :
+    let r := receive s cap h (.ev .wantRead)
+    r.2.1 = .err EAGAIN ∧ connUpdate r.1 RECEIVABLE false = (false, RECEIVABLE, true, false) := by
+  unfold receive
+  generalize tryFinishHandshake s h = s1 at hs
+  simp [hs, processSslEvent, connUpdate, RECEIVABLE, Generated.XCM_SO_RECEIVABLE]
+
+/-- the bell of a ready connection rings only for a stated reason: decrypted data is pending for a RECEIVABLE
+waiter, or OpenSSL has not reported a blocked operation of the awaited kind -/
+theorem C16_btls_bell_reason (s : St) (hs : s.state = .ready) (cond : Nat) (hp : Bool)
+    (hb : (connUpdate s cond hp).1 = true) :
+    cond ≠ 0 ∧ ((cond &&& RECEIVABLE ≠ 0 ∧ hp = true) ∨ s.sslCondition = 0 ∨ cond ≠ s.sslCondition) := by
+  revert hb
+  unfold connUpdate
+  simp only [hs]
+  split
+  · intro hb; cases hb
+  rename_i hc0
+  split
+  · rename_i h; intro _; exact ⟨hc0, Or.inl ⟨h.1, h.2⟩⟩
+  split
+  · rename_i h; intro _; exact ⟨hc0, Or.inr (Or.inl h)⟩
+  split
+  · intro hb; cases hb
+  rename_i hne
+  intro _; exact ⟨hc0, Or.inr (Or.inr hne)⟩
+
+end XcmModel.C16btls
